@@ -355,7 +355,7 @@ def c05():
             a, b = outcome(child, *pr), outcome(fresh, *pr)
             if a != b:
                 per_script.setdefault(100 + int(parent_used), []).append(dict(scenario="register on parent of a linked child in use", parent_used=parent_used, probe=repr(pr), got=a, fresh_function=b))
-    out_ = [dict(name=f"equals_fresh_function_after_changes.script{si}", n_violations=len(v), violations=v[:3]) for si, v in sorted(per_script.items())]
+    out_ = [dict(name=f"equals_fresh_function_after_changes.script{si}", n_violations=len(v), violations=v[:3], inputs=sorted({__import__("_fp").fingerprint(x) for x in v})) for si, v in sorted(per_script.items())]
     if renamed_fail:
         out_.append(dict(name="equals_fresh_function_after_reregistration_under_another_parameter_name", n_violations=len(renamed_fail), violations=renamed_fail[:3]))
     return n, out_
